@@ -396,6 +396,46 @@ func sortTag(srt string) string {
 	return r.Replace(srt)
 }
 
+// typeTag names the heap a value of Go type t lives in: heaps are split by Go
+// type, not by SMT sort, so that e.g. []int64 and []uint64 (both Int in int
+// mode) can never alias, as Go's type system guarantees.
+func (s *Sorts) typeTag(t types.Type) string {
+	if isTime(t) {
+		return "time"
+	}
+	switch u := t.Underlying().(type) {
+	case *types.Basic:
+		if u.Kind() == types.Uint8 {
+			return "byte"
+		}
+		return u.Name()
+	case *types.Pointer:
+		return "ptr_" + s.typeTag(u.Elem())
+	case *types.Slice:
+		return "slice"
+	case *types.Array:
+		return fmt.Sprintf("arr%d_%s", u.Len(), s.typeTag(u.Elem()))
+	}
+	return sortTag(s.SortOf(t))
+}
+
+// CellHeapT / ElemHeapT: heaps keyed by Go type.
+func (s *Sorts) CellHeapT(t types.Type) (string, string) {
+	es := s.SortOf(t)
+	name := "HP$" + s.typeTag(t)
+	srt := arraySort("Int", es)
+	s.Heap(name, srt)
+	return name, srt
+}
+
+func (s *Sorts) ElemHeapT(t types.Type) (string, string) {
+	es := s.SortOf(t)
+	name := "HS$" + s.typeTag(t)
+	srt := arraySort("Int", arraySort(s.Idx(), es))
+	s.Heap(name, srt)
+	return name, srt
+}
+
 // CellHeap holds the targets of pointers to non-struct values of one sort.
 func (s *Sorts) CellHeap(elemSort string) (string, string) {
 	name := "HP$" + sortTag(elemSort)
